@@ -46,6 +46,7 @@ impl Prop for C07Prop {
             keyings: 1,
             boundary_per_mille: 0,
             huge_one_in: 400,
+            hub_one_in: 700,
         }
         .gen("C07", seed, idx);
         if idx % 100 == 99 {
@@ -180,6 +181,14 @@ impl Prop for C07Prop {
                 }
                 Err(e) => cx.emit(&format!("multi_source.{}", tag), format!("Err({:?})", e.kind)),
             }
+            // distances only, every option off (its own code path), right after searches that stopped at a target
+            match run!("all_pairs", dijkstra::all_pairs(g, weighted, None, None, false, false)) {
+                Ok(m) => {
+                    let m = algo::sp2_conv(m);
+                    cx.emit(&format!("all_pairs_plain.{}", tag), m.iter().map(|(k, v)| format!("{:?}=>{}|", k, algo::sp_bits(v))).collect());
+                }
+                Err(e) => cx.emit(&format!("all_pairs_plain.{}", tag), format!("Err({:?})", e.kind)),
+            }
             if wp {
                 let x = snap.names[rng.below(n)].clone();
                 let v = run!("get_all_shortest_paths_involving", dijkstra::get_all_shortest_paths_involving(g, x.clone(), weighted));
@@ -259,7 +268,7 @@ impl Prop for C07Prop {
         out
     }
     fn rule(&self) -> String {
-        "graphs with 21-60 nodes of all 8 kinds (weighted / unweighted); all_pairs, multi_source (with target, first_only), get_all_shortest_paths_involving, betweenness_centrality (raw / normalized), closeness_centrality (plain / WF) evaluated once with a pool of 1 worker and under 6 (quick) / 9 (thorough) simulated pools of 2-16 workers - split tree, steals and leaf execution order drawn from the schedule seed, one third inside a caller-installed pool nested in a pool of another size - under the same hash keying; every key set, distance, path list (in order) and centrality compared by bit pattern with the single-threaded result. evaluations = cases; each case = 1 + k schedules. distinct_nontrivial = distinct (graph, set of schedule traces) in which a parallel job actually ran; one case in 400 is a dense graph (1-3 blocks, 60-300 nodes) with 2 100 - 12 500 stored edges under a pool of 2-16 workers (strategy thresholds)".into()
+        "graphs with 21-60 nodes of all 8 kinds (weighted / unweighted); all_pairs, multi_source (with target, first_only), get_all_shortest_paths_involving, betweenness_centrality (raw / normalized), closeness_centrality (plain / WF) evaluated once with a pool of 1 worker and under 6 (quick) / 9 (thorough) simulated pools of 2-16 workers - split tree, steals and leaf execution order drawn from the schedule seed, one third inside a caller-installed pool nested in a pool of another size - under the same hash keying; every key set, distance, path list (in order) and centrality compared by bit pattern with the single-threaded result. evaluations = cases; each case = 1 + k schedules. distinct_nontrivial = distinct (graph, set of schedule traces) in which a parallel job actually ran; one case in 400 is a dense graph (1-3 blocks, 60-300 nodes) with 2 100 - 12 500 stored edges under a pool of 2-16 workers (strategy thresholds); one case in 700 has 4 150 - 4 600 nodes with one or two hubs adjacent to more than 4 096 of them (node-count thresholds; centralities only); in a quarter of the cases searches that fail and valid searches that stop early at a target run first in every environment, and a distances-only all_pairs with every option off follows the target searches".into()
     }
     fn assumptions(&self) -> Vec<String> {
         vec![
